@@ -218,8 +218,6 @@ P['im2col'] = dict(params=[('N', [1, 2]), ('C', [1, 3]), ('H', [8, 9, 28]), ('W'
                            ('dilate-x', [1, 2]), ('dilate-y', [1, 2])], cdna3=False, multi=False, unified=False, um=False, timing=False)
 P['memcopy'] = dict(params=[], cdna3=False, multi=False, unified=False, um=False, timing=False)
 
-HANG2 = ('relu', 'aes', 'simpleconvolution')
-
 
 def vals(c):
     """size parameters of a configuration as numbers"""
@@ -236,26 +234,11 @@ def vals(c):
     return d
 
 
+GLOBAL_OFFSET_WORKLOADS = ('fir', 'relu', 'aes', 'kmeans', 'bitonicsort', 'simpleconvolution')
+
+
 def discrete(c):
     return c['ngpu'] >= 2 and not c['unified']
-
-
-def remainder_dropped(c):
-    """work-items per GPU computed as N / nGPU: the remainder is never launched"""
-    if not discrete(c):
-        return False
-    v, n, w = vals(c), c['ngpu'], c['w']
-    if w in ('fir', 'relu'):
-        return v.get('length', 4096) % n != 0
-    if w == 'aes':
-        return (v.get('length', 65536) // 16) % n != 0
-    if w == 'bitonicsort':
-        return (v.get('length', 1024) // 2) % n != 0
-    if w == 'kmeans':
-        return v.get('points', 1024) % n != 0
-    if w == 'matrixtranspose':
-        return v.get('width', 256) % (64 * n) != 0
-    return False
 
 
 def mm_tiles(c):
@@ -269,50 +252,17 @@ def mm_tiles(c):
 
 # Known findings: id (= key in c01_known.json), witness command, timeout, matcher on a configuration, text
 KNOWN = [
-    dict(id='unified-memory-timing-multi-gpu', witness='atax -x=64 -y=64 -gpus=1,2 -timing -use-unified-memory', timeout=60,
-         match=lambda c: c['timing'] and c['um'] and c['ngpu'] >= 2,
-         text='timing platform, >=2 GPUs, -use-unified-memory (listed in the acceptance matrix): first page migration panics '
-              '(nil pointer in cp ctrlMiddleware.processRDMADrainRsp; CommandProcessor.Driver is never set) — DESIGN §4 row 15'),
-    dict(id='timing-discrete-multi-gpu-hang', witness='relu -length=128 -gpus=1,2 -timing', timeout=30, hang=True,
-         match=lambda c: c['timing'] and not c['unified'] and (c['ngpu'] >= 3 or (c['ngpu'] == 2 and c['w'] in HANG2)),
-         text='timing platform with several discrete GPUs (classes listed in the acceptance matrix): the run deadlocks (<1 s CPU, a command '
-              'in flight is never completed) for every workload with >=3 GPUs (fir -gpus=1,2,3[,4]) and for relu, aes, simpleconvolution '
-              'already with -gpus=1,2 — DESIGN §4 row 16 (component open, C11/C18); fir/atax/bicg/kmeans/... -gpus=1,2 -timing pass'),
-    dict(id='timing-discrete-multi-gpu-hang', witness='fir -length=64 -timing -gpus=1,2,3', timeout=30, hang=True,
-         match=lambda c: False, text='same class, >=3 GPUs witness'),
-    dict(id='fastwalshtransform-discrete-multi-gpu', witness='fastwalshtransform -length=256 -gpus=1,2', timeout=60,
-         match=lambda c: c['w'] == 'fastwalshtransform' and discrete(c),
-         text='fastwalshtransform with N discrete GPUs enqueues the complete in-place transform on every GPU queue, so the array is '
-              'transformed N times: -verify fails in emulation (amd/benchmarks/amdappsdk/fastwalshtransform exec)'),
-    dict(id='vectoradd-discrete-multi-gpu', witness='vectoradd -width=4096 -height=1 -gpus=1,2', timeout=60,
-         match=lambda c: c['w'] == 'vectoradd' and discrete(c),
-         text='vectoradd with N discrete GPUs: every GPU computes the first 1/N of the vectors (the global offset is only passed as a '
-              'hidden argument the kernels do not use for the element index): -verify fails in emulation, gcn3 and cdna3'),
-    dict(id='discrete-multi-gpu-remainder', witness='fir -length=65 -gpus=1,2', timeout=60, match=remainder_dropped,
-         text='discrete multi-GPU split drops the remainder: fir, relu, kmeans, aes, bitonicsort and matrixtranspose give every GPU '
-              'floor(N / nGPU) work-items (matrixtranspose: floor(tiles / nGPU) tile columns), so with N not divisible by nGPU the tail '
-              'is never computed (fir -length=65 -gpus=1,2: "At position 64, expected 6440, but get 0") and with N < nGPU a zero-sized '
-              'grid makes the driver dereference nil (fir -length=1, aes -length=16, bitonicsort -length=2); emulation; -unified-gpus is fine'),
-    dict(id='floydwarshall-timing-node32', witness='floydwarshall -node=32 -timing', timeout=90,
-         match=lambda c: c['w'] == 'floydwarshall' and c['timing'] and vals(c).get('node', 16) > 16,
-         text='floydwarshall -timing (an acceptance-matrix class, listed with the default 16 nodes) fails -verify for 24, 32, 48, 64 nodes '
-              '(Mismatch at row 0 col 1) while emulation passes and 8/16 nodes pass in timing: timing and emulation disagree on this kernel'),
-    dict(id='pagerank-timing-iterations', witness='pagerank -node=32 -sparsity=0.5 -iterations=3 -timing', timeout=90,
-         match=lambda c: c['w'] == 'pagerank' and c['timing'] and vals(c).get('iterations', 16) >= 3,
-         text='pagerank -timing (an acceptance-matrix class, listed with 2 iterations) fails -verify from the 3rd iteration on '
-              '(Mismatch at 0, third significant digit) for 32/65/100 nodes and from the 5th for 16 nodes, 1 GPU and 2 GPUs plain/unified; '
-              'emulation passes for every iteration count: timing and emulation disagree'),
+    dict(id='cdna3-discrete-multi-gpu-global-offset', witness='fir -length=64 -gpus=1,2 -arch=cdna3', timeout=60,
+         match=lambda c: c['arch'] == 'cdna3' and discrete(c) and c['w'] in GLOBAL_OFFSET_WORKLOADS,
+         text='-arch=cdna3 with several discrete GPUs (-gpus=1,2): fir, relu, aes, kmeans, bitonicsort and simpleconvolution tell each '
+              'GPU its part of the index space through the hidden global offset, which the gfx942 (HIP) kernels do not add to the '
+              'work-item ID: every GPU computes the first part and the rest stays untouched (fir -length=64 -gpus=1,2 -arch=cdna3: '
+              '"At position 32, expected 2600, but get 0"); gcn3 and -unified-gpus pass; atax, bicg, matrixtranspose, matrixmultiplication, '
+              'nbody, pagerank, spmv, stencil2d, fft, floydwarshall and vectoradd (pointer offsets) pass'),
     dict(id='floydwarshall-node-multiple-of-8', witness='floydwarshall -node=17', timeout=60,
          match=lambda c: c['w'] == 'floydwarshall' and vals(c).get('node', 16) % 8 != 0,
          text='floydwarshall with a node count that is not a multiple of 8 (4, 12, 17, 20) fails -verify in emulation: the grid is '
               'node/blockSize work-groups per dimension and the kernel has no bounds check; the precondition is not checked'),
-    dict(id='atax-ny-greater-nx', witness='atax -x=64 -y=100', timeout=60,
-         match=lambda c: c['w'] == 'atax' and vals(c).get('y', 4096) > vals(c).get('x', 4096),
-         text='atax with -y greater than -x panics in host code (index out of range [x] with length x) on every architecture; '
-              '-y <= -x and every bicg shape pass'),
-    dict(id='kmeans-fewer-points-than-clusters', witness='kmeans -points=4 -features=3 -clusters=5 -max-iter=1', timeout=60,
-         match=lambda c: c['w'] == 'kmeans' and vals(c).get('points', 1024) < vals(c).get('clusters', 5),
-         text='kmeans with fewer points than clusters panics in host code (index out of range) instead of rejecting the input'),
     dict(id='matrixmultiplication-tile-multiples', witness='matrixmultiplication -x=48 -y=32 -z=32', timeout=60, match=mm_tiles,
          text='matrixmultiplication fails -verify in emulation unless -x is a multiple of 32 (gcn3, when z >= 32: 16x*x32, 48x*x32 ... '
               'mismatch at [0,0]); the gfx942 kernel additionally needs -z to be a multiple of 32 (cdna3: 32x32x16, 64x64x48 mismatch)'),
@@ -334,9 +284,9 @@ KNOWN = [
          text='im2col with a non-square input (H != W) fails its GPU-vs-CPU verification (or runs the emulator into undecodable code) '
               'for every kernel/stride/padding/dilation choice; all square inputs pass; conv2d passes for the same shapes'),
     dict(id='conv2d-padding-out-of-bounds', witness='conv2d -N=2 -H=9 -pad-y=1', timeout=60,
-         match=lambda c: c['w'] == 'conv2d' and vals(c).get('pad-y', 0) >= 1 and vals(c).get('N', 1) >= 2 and vals(c).get('H', 28) != vals(c).get('W', 28),
-         text='conv2d with batch >= 2, a non-square input and padding in y panics "page not found in page table" in emulation '
-              '(conv2d -N=2 -H=9 -pad-y=1 with the default W=28; also N=3 pad-y=2): a kernel of the convolution addresses memory outside '
+         match=lambda c: c['w'] == 'conv2d' and (vals(c).get('pad-x', 0) >= 1 or vals(c).get('pad-y', 0) >= 1) and vals(c).get('H', 28) != vals(c).get('W', 28),
+         text='conv2d with a non-square input and padding panics "page not found in page table" in emulation for some shapes '
+              '(conv2d -N=2 -H=9 -pad-y=1 with the default W=28; -N=1 -C=3 -H=28 -W=8 -kernel-width=1 -pad-x=1: vAddr 0x7e3): a kernel of the convolution addresses memory outside '
               'its buffers, which faults only when the address leaves the mapped pages (N=1, square inputs, W=8/11 pass)'),
     dict(id='stencil2d-column-count', witness='stencil2d -row=64 -col=66', timeout=60,
          match=lambda c: c['w'] == 'stencil2d' and vals(c).get('col', 64) not in (64, 127, 128, 192),
@@ -371,6 +321,14 @@ def mk(w, size, arch='gcn3', gpus='', unified=False, um=False, timing=False, gpu
                 ngpu=len(gpus.split(',')) if gpus else 1)
 
 
+def domain_ok(c):
+    """inputs a workload rejects with a message are outside its domain"""
+    v = vals(c)
+    if c['w'] == 'kmeans' and v.get('points', 1024) < v.get('clusters', 5):
+        return False  # kmeans panics: needs at least as many points as clusters
+    return True
+
+
 def known_class(c):
     for k in KNOWN:
         if k['match'](c):
@@ -389,7 +347,9 @@ def draw(rng):
         classes += [dict(arch='cdna3')] * 2
     classes += [dict(gpus='2')]
     if d['multi']:
-        classes += [dict(gpus='1,2'), dict(gpus='1,2,3,4')]
+        classes += [dict(gpus='1,2'), dict(gpus='1,2,3'), dict(gpus='1,2,3,4')]
+        if d['cdna3']:
+            classes += [dict(arch='cdna3', gpus='1,2'), dict(arch='cdna3', gpus='1,2,3,4')]
         if d['um']:
             classes += [dict(gpus='1,2', um=True)]
     if d['unified']:
@@ -405,7 +365,11 @@ def draw(rng):
         if d['um']:
             classes += [dict(timing=True, um=True)]
         if d['multi']:
-            classes += [dict(timing=True, gpus='1,2')]
+            classes += [dict(timing=True, gpus='1,2'), dict(timing=True, gpus='1,2,3'), dict(timing=True, gpus='1,2,3,4')]
+            if d['um']:
+                classes += [dict(timing=True, gpus='1,2', um=True)]
+        if d['unified'] and d['um']:
+            classes += [dict(timing=True, gpus='1,2', unified=True, um=True)]
         if d['unified']:
             classes += [dict(timing=True, gpus='1,2', unified=True), dict(timing=True, gpus='1,2,3,4', unified=True)]
     if w == 'vectoradd':  # mi300a timing: the one class the acceptance matrix lists
@@ -421,6 +385,8 @@ def draw_matrix(rng, n, seen):
     while len(out) < n and tries < 200 * n:
         tries += 1
         c = draw(rng)
+        if not domain_ok(c):
+            continue
         k = known_class(c)
         if k:
             skipped[k] += 1
@@ -453,7 +419,7 @@ def core_matrix():
         mk('spmv', '-dim=63 -sparsity=0.1', arch='cdna3'), mk('spmv', '-dim=256 -sparsity=0.02'), mk('spmv', '-dim=100 -sparsity=1', gpus='1,2'),
         mk('nbody', '-particles=100 -iter=3'), mk('nbody', '-particles=256 -iter=1', arch='cdna3'),
         mk('pagerank', '-node=65 -sparsity=0.1 -iterations=2', gpus='1,2'), mk('pagerank', '-node=100 -sparsity=0.5 -iterations=1', timing=True),
-        mk('conv2d', '-N=2 -C=3 -H=9 -W=11 -output-channel=2 -kernel-height=3 -kernel-width=1 -pad-x=1 -pad-y=0 -stride-x=1 -stride-y=2'),
+        mk('conv2d', '-N=2 -C=3 -H=9 -W=11 -output-channel=2 -kernel-height=3 -kernel-width=1 -stride-x=1 -stride-y=2'), mk('conv2d', '-N=2 -C=3 -H=9 -W=9 -output-channel=2 -kernel-width=1 -pad-x=1 -pad-y=0 -stride-y=2'),
         mk('conv2d', '-H=28 -W=8 -kernel-height=1 -kernel-width=3 -stride-x=2'),
         mk('im2col', '-N=2 -C=3 -H=9 -W=9 -kernel-height=3 -kernel-width=1 -pad-x=1 -stride-y=2 -dilate-x=2'),
         mk('im2col', ''), mk('conv2d', ''),  # default shapes: 2-D work-groups partially filled in X (676 x 9 outputs, 8x8 groups)
@@ -464,6 +430,19 @@ def core_matrix():
         mk('floydwarshall', '-node=16 -iter=0', gpus='1,2', unified=True, timing=True), mk('floydwarshall', '-node=24 -iter=3'),
         mk('fft', '-bytes=8192 -passes=2', arch='cdna3'), mk('bfs', '-node=63 -degree=5 -depth=2', arch='cdna3'),
         mk('nw', '-length=128', arch='cdna3'), mk('relu', '-length=63', timing=True), mk('fastwalshtransform', '-length=512'),
+    ]
+    core += [  # configurations that failed before the repairs (discrete multi-GPU splits, atax host code, timing hang 6b55f090,
+               # L1 invalidation bd91b146, unified-memory page migration 5048ec2f): regressions are violations
+        mk('fir', '-length=65', gpus='1,2'), mk('fir', '-length=1 -taps=1', gpus='1,2,3,4'), mk('fir', '-length=64', timing=True, gpus='1,2,3'),
+        mk('relu', '-length=63', gpus='1,2'), mk('relu', '-length=128', timing=True, gpus='1,2'),
+        mk('aes', '-length=16', gpus='1,2'), mk('aes', '-length=1024', timing=True, gpus='1,2'),
+        mk('bitonicsort', '-length=2', gpus='1,2'), mk('kmeans', '-points=65 -features=8 -clusters=7 -max-iter=3', gpus='1,2'),
+        mk('matrixtranspose', '-width=64', gpus='1,2'), mk('matrixtranspose', '-width=192', gpus='1,2,3,4'),
+        mk('vectoradd', '-width=4096 -height=1', gpus='1,2'), mk('vectoradd', '-width=63 -height=3', arch='cdna3', gpus='1,2,3,4'),
+        mk('fastwalshtransform', '-length=256', gpus='1,2'), mk('atax', '-x=64 -y=100'), mk('atax', '-x=17 -y=257', arch='cdna3'),
+        mk('simpleconvolution', '-width=30 -height=17', timing=True, gpus='1,2'),
+        mk('floydwarshall', '-node=32', timing=True), mk('pagerank', '-node=32 -sparsity=0.5 -iterations=3', timing=True),
+        mk('atax', '-x=64 -y=64', timing=True, gpus='1,2', um=True),
     ]
     bad = [cfg_cmd(c) for c in core if known_class(c)]
     assert not bad, 'core configuration inside a known-finding class: %s' % bad
